@@ -276,9 +276,46 @@ theorem noPanic_intoInt (ty : IntTy) (x : Int) : NoPanic (intoInt ty x) := by
   · exact NoPanic.ok _
   · exact NoPanic.fail _
 
-theorem noPanic_codecRead (v : Option Bits) (vals : List Int) (idx : Nat) : NoPanic (codecRead Fixes.all v vals idx) := by
+theorem noPanic_codecRead (fmt : Int → R DVal) (hf : ∀ x, NoPanic (fmt x)) (v : Option Bits) (vals : List Int) (idx : Nat) :
+    NoPanic (codecRead Fixes.all fmt v vals idx) := by
   unfold codecRead
-  exact NoPanic.bind (noPanic_getRequired (noPanic_primGet _ _ _)) (fun _ => NoPanic.pure _)
+  exact NoPanic.bind (noPanic_getRequired (noPanic_primGet _ _ _)) hf
+
+theorem noPanic_dateRepr (ty : PrimTy) (x : Int) : NoPanic (dateRepr ty x) := by
+  unfold dateRepr Codec.dateToString
+  refine NoPanic.bind ?_ (fun _ => NoPanic.pure _)
+  dsimp only
+  (repeat' split) <;> first | exact NoPanic.ok _ | exact NoPanic.fail _
+
+theorem noPanic_timeRepr (u : SaModel.TimeUnit) (x : Int) : NoPanic (timeRepr u x) := by
+  unfold timeRepr Codec.timeToString
+  refine NoPanic.bind ?_ (fun _ => NoPanic.pure _)
+  split
+  · exact NoPanic.ok _
+  · exact NoPanic.fail _
+
+theorem noPanic_timestampRepr (u : SaModel.TimeUnit) (tz : Option String) (x : Int) : NoPanic (timestampRepr u tz x) := by
+  unfold timestampRepr Codec.timestampToString
+  refine NoPanic.bind ?_ (fun _ => NoPanic.pure _)
+  split
+  · exact NoPanic.ok _
+  · exact NoPanic.fail _
+
+theorem noPanic_ownedStr {r : R Bytes} (h : NoPanic r) : NoPanic (ownedStr r) := by
+  unfold ownedStr; exact NoPanic.bind h (fun _ => NoPanic.pure _)
+
+theorem noPanic_ownedBytes {r : R Bytes} (h : NoPanic r) : NoPanic (ownedBytes r) := by
+  unfold ownedBytes; exact NoPanic.bind h (fun _ => NoPanic.pure _)
+
+theorem noPanic_strVariant : ∀ (vs : TVariants) (s : Bytes), NoPanic (strVariant vs s)
+  | .nil, _ => NoPanic.fail _
+  | .cons n k rest, s => by
+    unfold strVariant
+    split
+    · split
+      · exact NoPanic.ok _
+      · exact NoPanic.fail _
+    · exact noPanic_strVariant rest s
 
 /-- one step of the routine "no panic" argument: close a leaf with a primitive lemma, or peel a bind / a match -/
 macro "np_step" : tactic => `(tactic| first
@@ -291,8 +328,15 @@ macro "np_step" : tactic => `(tactic| first
   | exact noPanic_getRequired (noPanic_viewColGet _ _ _ _ _)
   | exact noPanic_getRequired (noPanic_fsbColGet _ _ _ _)
   | exact noPanic_dictGetStr _ _ _
-  | exact noPanic_codecRead _ _ _
   | exact noPanic_intoInt _ _
+  | (refine noPanic_codecRead _ (fun _ => ?_) _ _ _)
+  | exact noPanic_ownedStr (noPanic_dateRepr _ _)
+  | exact noPanic_ownedBytes (noPanic_dateRepr _ _)
+  | exact noPanic_ownedStr (noPanic_timeRepr _ _)
+  | exact noPanic_ownedBytes (noPanic_timeRepr _ _)
+  | exact noPanic_ownedStr (noPanic_timestampRepr _ _ _)
+  | exact noPanic_ownedBytes (noPanic_timestampRepr _ _ _)
+  | exact noPanic_strVariant _ _
   | exact noPanic_listRange _ _
   | exact noPanic_fslRange _ _ _
   | exact noPanic_tryIntoUsize _
@@ -304,7 +348,7 @@ macro "np_step" : tactic => `(tactic| first
 macro "np" : tactic => `(tactic| repeat np_step)
 
 theorem noPanic_scalar (m : Method) (a : Arr) (idx : Nat) : NoPanic (scalar Fixes.all m a idx) := by
-  unfold scalar; np
+  unfold scalar; with_reducible np
 
 theorem noPanic_accept (t : Target) (d : DVal) : NoPanic (accept t d) := by
   unfold accept; np
